@@ -92,4 +92,55 @@ theorem written_by_either_read_by_either (items : List CItem) (hi : ∀ i ∈ it
       (by rw [enc_toR]; exact hp)
     exact ⟨r', by rw [← val_toR]; exact h, hp'⟩
 
+/-! ### Python to Python, fixed-size numbers included -/
+
+/-- a fixed-size number written little-endian is what the reader's `struct` decoding of those bytes returns -/
+theorem encLE_leVal : ∀ (bs : Bytes), encLE bs.length (CIS.leVal bs) = bs
+  | [] => rfl
+  | b :: r => by
+    have ih := encLE_leVal r
+    have hb : b.toNat < 256 := b.toNat_lt
+    simp only [List.length_cons, encLE, CIS.leVal]
+    have h1 : (b.toNat + 256 * CIS.leVal r) % 256 = b.toNat := by omega
+    have h2 : (b.toNat + 256 * CIS.leVal r) / 256 = CIS.leVal r := by omega
+    rw [h1, h2, ih]
+    simp
+
+namespace RItem
+
+def toW : RItem → WOp
+  | .byte b => .byte b
+  | .fixed bs => .fixed bs.length (CIS.leVal bs)
+  | .var n => .var64 n
+  | .bytes bs => .bytes bs
+
+/-- what the Python writer accepts: varints below 2^64, fixed-size numbers no wider than the buffer -/
+def wok (cap : Nat) : RItem → Prop
+  | .var n => n < 2 ^ 64
+  | .fixed bs => bs.length ≤ cap
+  | _ => True
+
+end RItem
+
+theorem spec_rtoW (items : List RItem) : ((items.map RItem.toW).map WOp.spec).flatten = encItems items := by
+  induction items with
+  | nil => rfl
+  | cons i r ih => cases i <;> simp_all [RItem.toW, WOp.spec, encItems, RItem.enc, encLE_leVal]
+
+/-- written through the Python output stream model, read through the Python input stream model: bytes, fixed-size
+    numbers, varints, byte runs — any sequence, both capacities independent -/
+theorem python_stream_round_trip (items : List RItem) (w : COS) (hw : 10 ≤ w.cap) (hwinv : w.Inv) (hwe : w.abs = [])
+    (hi : ∀ i ∈ items, i.wok w.cap) (r : PIS) (hr : 0 < r.cap) (hrinv : r.Inv) (hf : ∀ i ∈ items, i.fits r.cap)
+    (rest : Bytes) (hp : r.pending = (Py.run w (items.map RItem.toW)).abs ++ rest) :
+    ∃ r', r.readItems items = .ok (items.map RItem.val) r' ∧ r'.pending = rest := by
+  have hok : ∀ op ∈ items.map RItem.toW, op.ok w.cap := by
+    intro op hop
+    obtain ⟨i, him, rfl⟩ := List.mem_map.mp hop
+    have := hi i him
+    cases i <;> simp_all [RItem.toW, RItem.wok, WOp.ok]
+  have h := (Py.run_spec (items.map RItem.toW) w hw hwinv hok).1
+  rw [hwe, spec_rtoW] at h
+  obtain ⟨r', e, hp', _, _⟩ := PIS.readItems_ok items r hr hrinv hf rest (by rw [hp, h]; simp)
+  exact ⟨r', e, hp'⟩
+
 end Yardl
